@@ -144,8 +144,13 @@ func classify(fn *types.Func) (string, bool) {
 	case "github.com/pkg/xattr":
 		return "xattr." + name, true
 	case "github.com/oklog/ulid/v2":
-		if name == "Make" {
-			return "ulid.Make", true
+		switch name {
+		case "Make", "Now", "New", "MustNew":
+			return "ulid." + name, true
+		}
+	case "crypto/rand":
+		if name == "Read" {
+			return "crand.Read", true
 		}
 	case "github.com/google/uuid":
 		if name == "New" || name == "NewString" || name == "NewRandom" {
@@ -161,6 +166,7 @@ type stats struct {
 	Locks       int            `json:"locks"`
 	MapRange    int            `json:"map_ranges"`
 	HTTPClients int            `json:"http_client_literals"`
+	Pools       int            `json:"pool_calls"`
 	Skipped     []string       `json:"skipped"`
 	Files       int            `json:"files"`
 }
@@ -402,6 +408,27 @@ func rewriteFile(fset *token.FileSet, f *ast.File, info *types.Info, rel string,
 			fn, ok := obj.(*types.Func)
 			if !ok {
 				return true
+			}
+			// sync.Pool
+			if fn.Pkg() != nil && fn.Pkg().Path() == "sync" {
+				if rp, rn, _, ok := recvNamed(fn); ok && rp == "sync" && rn == "Pool" && (fn.Name() == "Get" || fn.Name() == "Put") {
+					se, isSel := n.Fun.(*ast.SelectorExpr)
+					if !isSel || !isPure(se.X) {
+						st.Skipped = append(st.Skipped, "pool-impure "+site(n))
+						return true
+					}
+					var recv ast.Expr = se.X
+					if tv, ok := info.Types[se.X]; ok {
+						if _, isPtr := tv.Type.Underlying().(*types.Pointer); !isPtr {
+							recv = &ast.UnaryExpr{Op: token.AND, X: se.X}
+						}
+					}
+					args := append([]ast.Expr{recv}, n.Args...)
+					c.Replace(&ast.CallExpr{Fun: sel(rtName, "Pool"+fn.Name()), Args: args})
+					st.Pools++
+					changed = true
+					return true
+				}
 			}
 			// mutex
 			if fn.Pkg() != nil && fn.Pkg().Path() == "sync" {
